@@ -39,6 +39,10 @@ SingleNilCfgs == {[Base EXCEPT !.nodes = <<k>>, !.outs = {"ok", "err", "nil"}, !
 SingleCancelCfgs == {[Base EXCEPT !.nodes = <<k>>, !.cancel = TRUE, !.acts = {1}, !.ctx0 = <<c0>>] :
                      k \in {x \in LeafKinds : x.N <= 2} \cup {Func(f, 2, <<"r", "r", "r">>) : f \in BOOLEAN}, c0 \in BOOLEAN}
 
+\* a retry wait between the attempts, with cancellation from inside a callback or from outside during the wait
+SingleWaitCfgs == {[Base EXCEPT !.nodes = <<[k EXCEPT !.w = 1]>>, !.cancel = TRUE, !.acts = {1}, !.ctx0 = <<FALSE>>] :
+                     k \in {x \in LeafKinds : x.retry /\ x.N >= 2} \cup {Func(f, 2, <<"r", "r", "r">>) : f \in BOOLEAN}}
+
 \* ---- flat flows: every table over two leaves and two actions --------------
 Targets2 == {-1, 0, 1, 2}                       \* -1: not connected, 0: nil
 ConnSeq(f, pairs, tg) ==                        \* canonical Connect order; pairs is a sequence of <<from, act>>
@@ -162,6 +166,7 @@ Cfgs == CASE Family = "single"       -> SingleCfgs
           [] Family = "dynwire"      -> DynWireCfgs
           [] Family = "emptyconn"    -> EmptyConnCfgs
           [] Family = "selfnest"     -> SelfNestCfgs
+          [] Family = "singlewait"   -> SingleWaitCfgs
 
 MCInit == \E c \in Cfgs : InitWith(c)
 MCSpec == MCInit /\ [][Next]_vars
